@@ -18,7 +18,14 @@
    (5 amountToSplit (amounts in the wallet))            splitWalletTarget
         => (a1 a2 ...)
    (6 activeFee ((kidx fee)...) ((amount kidx)...))     feesForProofs
-        => (fee) *)
+        => (fee)
+   (7 includeFees amount activeFee ((kidx fee)...) (inactive) (active))
+        Wallet.Send against a real mint, then Wallet.Receive of the token by a second wallet
+        => the observation of stream 4 with one more element at the end: the amount the recipient
+           ends up with = worth of the proofs handed out - the mint's input fee for those very
+           proofs (swap: all of the active keyset; offline: of whatever keysets they are), or -1
+           when the fee exceeds the worth (the recipient's swap cannot succeed; worth = fee is
+           redeemed for nothing, without an error) *)
 From Coq Require Import ZArith List Bool.
 From Verif Require Import Sexp Select.
 Import ListNotations.
@@ -44,6 +51,37 @@ Definition d_mint (active_fee : Z) (s : sexp) : option mint :=
 
 Definition sorted_amounts (ps : list proof) : sexp := eListZ (sortZ (amounts ps)).
 
+(* what the recipient nets after redeeming: -1 = the fee exceeds the worth, the swap is refused *)
+Definition net_obs (worth fee : Z) : Z := if worth - fee <? 0 then -1 else worth - fee.
+
+(* streams 4 and 7: getProofsForAmount, with (stream 7) the recipient's side appended *)
+Definition run_send (with_net : bool) (m : mint) (inactive active : list proof) (amount : Z) (incb : bool) : sexp :=
+  let tail (net : Z) : list sexp := if with_net then [A net] else [] in
+  match get_proofs_decision m inactive active amount incb with
+  | DOffline sel =>
+      L ([A 1; sorted_amounts sel] ++ tail (net_obs (sumZ (amounts sel)) (fees_for_proofs m sel)))
+  | DSwap =>
+      match swap_to_send_plan m inactive active amount incb with
+      | Ok p => L ([A 2; A (sp_fee_estimate p); eListZ (sp_send p); sorted_amounts (sp_inputs p);
+                    A (sp_input_fee p); A (sp_change p); eListZ (sp_change_split p)]
+                   ++ tail (net_obs (sumZ (sp_send p)) (mint_fee_for_sent m (sp_send p))))
+      | Err code => L [A 0; A code]
+      | OutOfFuel => L [A (-1)]
+      end
+  | DErr code => L [A 0; A code]
+  | DOutOfFuel => L [A (-1)]
+  end.
+
+Definition d_send (with_net : bool) (inc amount active_fee : Z) (ks ina act : sexp) : sexp :=
+  match d_mint active_fee ks, d_proofs 0 ina with
+  | Some m, Some inactive =>
+      match d_proofs (Z.of_nat (length inactive)) act with
+      | Some active => run_send with_net m inactive active amount (negb (inc =? 0))
+      | None => bad_case
+      end
+  | _, _ => bad_case
+  end.
+
 Definition run_select (c : sexp) : sexp :=
   match c with
   | L [A 1; A amount] => eListZ (amount_split amount)
@@ -58,28 +96,8 @@ Definition run_select (c : sexp) : sexp :=
           end
       | _, _ => bad_case
       end
-  | L [A 4; A inc; A amount; A active_fee; ks; ina; act] =>
-      match d_mint active_fee ks, d_proofs 0 ina with
-      | Some m, Some inactive =>
-          match d_proofs (Z.of_nat (length inactive)) act with
-          | Some active =>
-              let incb := negb (inc =? 0) in
-              match get_proofs_decision m inactive active amount incb with
-              | DOffline sel => L [A 1; sorted_amounts sel]
-              | DSwap =>
-                  match swap_to_send_plan m inactive active amount incb with
-                  | Ok p => L [A 2; A (sp_fee_estimate p); eListZ (sp_send p); sorted_amounts (sp_inputs p);
-                               A (sp_input_fee p); A (sp_change p); eListZ (sp_change_split p)]
-                  | Err code => L [A 0; A code]
-                  | OutOfFuel => L [A (-1)]
-                  end
-              | DErr code => L [A 0; A code]
-              | DOutOfFuel => L [A (-1)]
-              end
-          | None => bad_case
-          end
-      | _, _ => bad_case
-      end
+  | L [A 4; A inc; A amount; A active_fee; ks; ina; act] => d_send false inc amount active_fee ks ina act
+  | L [A 7; A inc; A amount; A active_fee; ks; ina; act] => d_send true inc amount active_fee ks ina act
   | L [A 5; A amount; w] =>
       match sListZ w with
       | Some wallet => eListZ (split_wallet_target amount wallet)
